@@ -18,24 +18,24 @@ const (
 
 // Protected sinks: resolved callee full name -> class.
 var protectedSinks = map[string]string{
-	RS + "LoadUserProfile":            "profile-read",
-	RS + "SaveUserProfile":            "profile-write",
-	RS + "DeleteUserProfile":          "profile-write",
-	RS + "GetUsers":                   "profile-read",
-	RS + "UpsertSigned":               "signed-store",
-	RS + "DeleteSigned":               "signed-store",
-	RS + "genNewSerializedAuthJWT":    "mint-session",
-	RS + "updateAuthJWTWithNewAuthLevel": "mint-session",
-	RS + "generateAuthJWT":            "mint-cli-token",
-	RS + "sendBootstrapOtpEmail":      "email",
-	km.ModPath + "/lib/certgen.GenSSHCertFileString":    "sign-cert",
-	km.ModPath + "/lib/certgen.GenUserX509Cert":         "sign-cert",
-	km.ModPath + "/lib/certgen.GenIPRestrictedX509Cert": "sign-cert",
-	"crypto/x509.CreateCertificate":                     "sign-cert",
-	"(*golang.org/x/crypto/ssh.Certificate).SignCert":   "sign-cert",
-	"(*github.com/go-jose/go-jose/v4/jwt.Builder).Serialize":                   "mint-token",
-	"iface:(github.com/go-jose/go-jose/v4/jwt.Builder).Serialize":              "mint-token",
-	"(*" + km.ModPath + "/lib/vip.Client).StartUserVIPPush":                   "2fa-start",
+	RS + "LoadUserProfile":                                        "profile-read",
+	RS + "SaveUserProfile":                                        "profile-write",
+	RS + "DeleteUserProfile":                                      "profile-write",
+	RS + "GetUsers":                                               "profile-read",
+	RS + "UpsertSigned":                                           "signed-store",
+	RS + "DeleteSigned":                                           "signed-store",
+	RS + "genNewSerializedAuthJWT":                                "mint-session",
+	RS + "updateAuthJWTWithNewAuthLevel":                          "mint-session",
+	RS + "generateAuthJWT":                                        "mint-cli-token",
+	RS + "sendBootstrapOtpEmail":                                  "email",
+	km.ModPath + "/lib/certgen.GenSSHCertFileString":              "sign-cert",
+	km.ModPath + "/lib/certgen.GenUserX509Cert":                   "sign-cert",
+	km.ModPath + "/lib/certgen.GenIPRestrictedX509Cert":           "sign-cert",
+	"crypto/x509.CreateCertificate":                               "sign-cert",
+	"(*golang.org/x/crypto/ssh.Certificate).SignCert":             "sign-cert",
+	"(*github.com/go-jose/go-jose/v4/jwt.Builder).Serialize":      "mint-token",
+	"iface:(github.com/go-jose/go-jose/v4/jwt.Builder).Serialize": "mint-token",
+	"(*" + km.ModPath + "/lib/vip.Client).StartUserVIPPush":       "2fa-start",
 	"(*" + km.ModPath + "/lib/authenticators/okta.PasswordAuthenticator).ValidateUserPush": "2fa-start",
 }
 
